@@ -92,11 +92,11 @@ func HasLoose(v Val) bool {
 	return false
 }
 
-func VNull() Val         { return Val{K: Null} }
-func VBool(b bool) Val   { return Val{K: Bool, B: b} }
-func VStr(s string) Val  { return Val{K: Str, S: s} }
-func VArr(a []Val) Val   { return Val{K: Arr, A: a} }
-func VInt(i int64) Val   { return Val{K: Num, R: new(big.Rat).SetInt64(i), T: strconv.FormatInt(i, 10)} }
+func VNull() Val          { return Val{K: Null} }
+func VBool(b bool) Val    { return Val{K: Bool, B: b} }
+func VStr(s string) Val   { return Val{K: Str, S: s} }
+func VArr(a []Val) Val    { return Val{K: Arr, A: a} }
+func VInt(i int64) Val    { return Val{K: Num, R: new(big.Rat).SetInt64(i), T: strconv.FormatInt(i, 10)} }
 func VRat(r *big.Rat) Val { return Val{K: Num, R: r, T: RatText(r)} }
 
 func VUArr(a []Val) Val { return Val{K: Arr, A: a, Unordered: true} }
